@@ -36,6 +36,19 @@ Theorem C15_no_landmark_size :
 Proof. split; [exact range_no_landmark|exact range_landmark]. Qed.
 Print Assumptions C15_no_landmark_size.
 
+(* ... and that range is really fetched, in both modes of blob.Cache (one request, or concurrent pieces of
+   chunkSize * (prefetchChunkSize / chunkSize) bytes), for every chunk size, blob size and set [have] of chunks cached
+   before (footer / TOC reads): every byte x of [0, n) that exists in the blob lies in a registry chunk that was cached
+   already or inside one of the requests issued. With n = Z.min cfg size this is "the configured size, capped at the
+   blob size, is fetched"; with n = the landmark offset it is the download half of clause 1. *)
+Theorem C15_range_is_fetched :
+  forall cs pcs size have n x,
+    0 < cs -> 0 <= x < n -> x < size ->
+    memZ (x / cs * cs) have = true
+    \/ exists r, In r (cache_requests cs pcs size have n) /\ fst r <= x /\ x <= fst r + snd r - 1.
+Proof. exact cache_requests_cover. Qed.
+Print Assumptions C15_range_is_fetched.
+
 (* Layout link for clause 1 (what "prioritized" buys): in the writer, every chunk of every entry written before the
    landmark gets an offset strictly below the landmark's, for every min-chunk-size, whatever was written before and
    whatever follows (compressed sizes are arbitrary non-negative numbers; only the landmark's header must add a byte).
@@ -189,6 +202,14 @@ Example C15_nonvacuous_waiter :
   /\ returned s = [(2%nat, false); (1%nat, false); (0%nat, false)]
   /\ let t := wexec winit [WaitEnter 0; WaitTimeout 0; PfCall; WaitEnter 1; PfReturn true] in
      closes t = 1%nat /\ returned t = [(1%nat, false); (0%nat, true)] /\ pf t = Finished.
+Proof. vm_compute. repeat split; reflexivity. Qed.
+
+(* download: blob of 10500 bytes, registry chunks of 1000, prefetch chunk size 2500 (pieces of 2000), chunk 10000 cached by
+   the footer read, chunk 1000 by an earlier read: the requests for [0, 4700) *)
+Example C15_nonvacuous_requests :
+  cache_requests 1000 2500 10500 [10000; 1000] 4700 = [(0, 1000); (2000, 2000); (4000, 1000)]
+  /\ cache_requests 1000 0 10500 [10000; 1000] 4700 = [(0, 5000)]
+  /\ cache_requests 1000 0 10500 [10000] 0 = [(0, 1000)].
 Proof. vm_compute. repeat split; reflexivity. Qed.
 
 (* writer: min-chunk-size 100; two prioritized files share the first stream (offset 0), the landmark opens a new
